@@ -130,7 +130,8 @@ def fold(pid, mod, tier, seed, outs, wall) -> int:
     lines: list[str] = []
     for k, n in sorted(known_hits.items()):
         lines.append(f'KNOWN-FINDING: property={pid} {k}: {known[k]["what"]} (observed {n}x)')
-    replay_dir = os.path.join(VERIF_ROOT, 'replays', pid)
+    out_root = os.environ.get('KVERIF_OUT', VERIF_ROOT)  # mutation runs write elsewhere so that committed evidence is never from a mutant
+    replay_dir = os.path.join(out_root, 'replays', pid)
     seen_what: set[str] = set()
     for v in real:
         sig = stable_hash(v.get('what', '')[:80], v.get('mechanism'))
@@ -174,8 +175,8 @@ def fold(pid, mod, tier, seed, outs, wall) -> int:
         'wall_s': round(wall, 2),
         'violations': len(real),
     }
-    os.makedirs(os.path.join(VERIF_ROOT, 'evidence'), exist_ok=True)
-    with open(os.path.join(VERIF_ROOT, 'evidence', f'{pid}.json'), 'w') as f:
+    os.makedirs(os.path.join(out_root, 'evidence'), exist_ok=True)
+    with open(os.path.join(out_root, 'evidence', f'{pid}.json'), 'w') as f:
         json.dump(evidence, f, indent=1, sort_keys=True)
 
     for ln in lines:
